@@ -144,7 +144,7 @@ class MemIfcCL2FLAdapter( Component ):
 
         if   req.type_ == MemMsgType.READ:
           resp = RespType( req.type_, req.opaque, 0, req.len,
-                             s.right.read( req.addr, len_ ) )
+                             zext( s.right.read( req.addr, len_ ), ReqType.data_nbits ) )
 
         elif req.type_ == MemMsgType.WRITE:
           s.right.write( req.addr, len_, req.data )
